@@ -78,6 +78,130 @@ pub fn regex_patterns(_run: &Run) -> Acc {
         .reduce(Acc::new, Acc::merge)
 }
 
+/// functions over lists: every function that receives whole values (the five extension functions, `length`, `count`,
+/// `value`, and `==` / `<` between whole lists) over lists of every size around the thresholds at which library sort /
+/// search routines change algorithm (0..=34, 63..=65, 100), for nine element mixes (small integers, strings, integers
+/// next to 2^53 and next to 2^60 with and without the doubles they round to, mixed types, nested lists, all-equal) in
+/// every one of a fixed set of arrangements (ascending, descending, every rotation by a third / half, four stride
+/// permutations, odd-one-out first / last); evaluation must return Ok
+pub fn list_functions(run: &Run) -> Acc {
+    let mut sizes: Vec<usize> = (0..=34).collect();
+    sizes.extend([63, 64, 65, 100]);
+    if run.thorough() {
+        sizes.extend([127, 128, 129, 255, 256, 257, 1000]);
+    }
+    fn mix(kind: usize, i: usize) -> Value {
+        const B53: i64 = 1 << 53;
+        const B60: i64 = 1 << 60;
+        match kind {
+            0 => json!(i as i64 - 3),
+            1 => json!(format!("s{}", i % 50)),
+            2 => json!(B53 - 4 + i as i64),
+            3 => {
+                // integers next to 2^53 and, for every fourth, the double the integer rounds to
+                let v = B53 - 4 + i as i64;
+                if i % 4 == 3 { json!(v as f64) } else { json!(v) }
+            }
+            4 => {
+                let v = B60 + 37 * i as i64;
+                if i % 8 == 5 { json!(v as f64) } else { json!(v) }
+            }
+            5 => {
+                let v = -(B60 + 129 * i as i64);
+                if i % 3 == 1 { json!(v as f64) } else { json!(v) }
+            }
+            6 => match i % 7 {
+                0 => json!(null),
+                1 => json!(i % 2 == 0),
+                2 => json!(i),
+                3 => json!(i as f64 + 0.5),
+                4 => json!(format!("{}", i)),
+                5 => json!([i]),
+                _ => json!({"a": i}),
+            },
+            7 => json!([i % 5, [i % 3]]),
+            _ => json!(7),
+        }
+    }
+    const MIXES: usize = 9;
+    fn arrangements(n: usize) -> Vec<Vec<usize>> {
+        let id: Vec<usize> = (0..n).collect();
+        let mut out = vec![id.clone(), id.iter().rev().cloned().collect()];
+        if n >= 3 {
+            for r in [n / 3, n / 2, n - 1] {
+                out.push((0..n).map(|i| (i + r) % n).collect());
+            }
+            for k in [3usize, 5, 7, 11] {
+                if gcd(k, n) == 1 {
+                    out.push((0..n).map(|i| (i * k) % n).collect());
+                    out.push((0..n).map(|i| (i * k + n / 2) % n).collect());
+                }
+            }
+            // interleave the lower and the upper half
+            out.push((0..n).map(|i| if i % 2 == 0 { i / 2 } else { n - 1 - i / 2 }).collect());
+        }
+        out.sort();
+        out.dedup();
+        out
+    }
+    fn gcd(a: usize, b: usize) -> usize {
+        if b == 0 { a } else { gcd(b, a % b) }
+    }
+    let queries = [
+        "$.g[?any_of(@,$.l)]",
+        "$.g[?none_of(@,$.l)]",
+        "$.g[?subset_of(@,$.l)]",
+        "$.g[?any_of($.l,@)]",
+        "$.g[?subset_of($.l,@)]",
+        "$.l[?in(@,$.l)]",
+        "$.l[?nin(@,$.g[0])]",
+        "$.g[?subset_of(@,@)]",
+        "$[?length(@)>=0]",
+        "$[?count(@.*)>20]",
+        "$.g[?@==$.l]",
+        "$.g[?@<$.l||@>=$.l]",
+        "$.l[?@==$.l[0]||@<$.l[1]]",
+        "$[?value(@)==$.l]",
+    ];
+    let mut jobs = vec![];
+    for n in &sizes {
+        for m in 0..MIXES {
+            jobs.push((*n, m));
+        }
+    }
+    jobs.par_iter()
+        .map(|(n, m)| {
+            let mut acc = Acc::new();
+            for arr in arrangements(*n) {
+                let l: Vec<Value> = arr.iter().map(|i| mix(*m, *i)).collect();
+                // the probes: a short prefix, the reversed list, one foreign element, the list itself
+                let g = json!([l.iter().take(3).cloned().collect::<Vec<_>>(), l.iter().rev().cloned().collect::<Vec<_>>(), [mix((*m + 1) % MIXES, 1)], l.clone()]);
+                let doc = json!({"l": l, "g": g});
+                let am = AddrMap::new(&doc);
+                acc.bump("lists", 1);
+                for q in queries {
+                    acc.evals += 1;
+                    let o = crate::watch::guarded(|| json!({"query": q, "doc": doc}).to_string(), || imp::run_with_path(q, &doc, &am));
+                    match o {
+                        ImplOut::Ok(v) => {
+                            if !v.is_empty() {
+                                acc.nontrivial += 1;
+                            }
+                        }
+                        other => {
+                            acc.viol(
+                                format!("{} on a list of {} elements (mix {}, arrangement starting {:?}): evaluation must return Ok, got {}", q, n, m, &arr[..arr.len().min(6)], other.short()),
+                                json!({"kind": "eval-ok", "class": "functions over lists (size x element mix x arrangement)", "query": q, "doc": doc}),
+                            );
+                        }
+                    }
+                }
+            }
+            acc
+        })
+        .reduce(Acc::new, Acc::merge)
+}
+
 /// programmatically built name selectors: the text of a `Selector::Name` can be anything when the query does not come
 /// from the parser (unquoted, quoted, with escapes cut short, with unpaired quotes); evaluation must return Ok
 pub fn built_names(_run: &Run) -> Acc {
